@@ -435,6 +435,28 @@ pub fn run(ctx: &Ctx) -> Outcome {
     let cfg = TapeCfg::new(ctx, 20_000, 1_500_000, 1500);
     out.shards = cfg.shards;
     out.absorb(tape_search(ctx, "main", &cfg, check, describe));
+    if !out.failed() && ctx.tier == Tier::Thorough {
+        for (target, text) in [("obj_binary", false), ("obj_text", true)] {
+            let fr = libfuzzer(ctx, target, 2_000_000, 1024, 8);
+            out.extra.insert(format!("libfuzzer_{target}_runs"), json!(fr.runs));
+            if let Some(s) = fr.skipped {
+                out.extra.insert("libfuzzer_skipped".into(), json!(s));
+            }
+            out.stats.evaluations += fr.runs;
+            if let Some(bytes) = fr.crash {
+                let (r, case) = if text {
+                    let s = String::from_utf8_lossy(&bytes).to_string();
+                    (oracle_text(&s).map(|_| ()), json!({"text": s}))
+                } else {
+                    (oracle_binary(&bytes).map(|_| ()), json!({"binary_hex": bytes.iter().map(|x| format!("{x:02x}")).collect::<String>()}))
+                };
+                if let Err(m) = r {
+                    out.failure = Some(Failure { case: case.clone(), message: format!("(libFuzzer) {m}"), description: case });
+                    break;
+                }
+            }
+        }
+    }
     out.essential = ["accepted:structured-binary", "accepted:structured-text", "accepted:mutated-binary", "accepted:mutated-text", "gen:random-bytes", "gen:random-text"].iter().map(|s| s.to_string()).collect();
     out
 }
